@@ -467,6 +467,6 @@ def c_handler_adapter(kind: int, n0: int, n1: int, bp: bool, err: bool, limit_ra
             devs.append(d)
         t.eof()
         loop.run_ready()
-        if loop.exc:
+        if loop.errors():
             devs.append('loop-exception-handler-called')
     return pick_dev(devs, ALLOWED)
